@@ -87,7 +87,14 @@ def timeout_cases(rng, tier):
     model cannot decide for every phase are skipped by the comparison."""
     cases = ["W 700 1500 d300,g", "W 700 1500 d1600,g", "W 700 1500 p,d300,P,h,e,B", "W 700 1500 p,d1600,P,h,e,B",
              "W 700 1500 q,h,e,b,d300,b", "W 700 1500 q,h,e,b,d2300,b", "W 700 1500 q,h,e,d1000,B", "W 700 1500 q,d1400,h,e,B",
-             "W 700 1500 g,d200,g", "W 700 1500 g,d1700,g", "W 1500 700 q,h,e,d300,B", "W 1500 700 q,h,e,d1400,B", "W 1500 700 d300,q,d300,h,e,B"]
+             "W 700 1500 g,d200,g", "W 700 1500 g,d1700,g", "W 1500 700 q,h,e,d300,B", "W 1500 700 q,h,e,d1400,B", "W 1500 700 d300,q,d300,h,e,B",
+             # the body time-out is a deadline for the whole request, not an inactivity time-out: a body arriving in
+             # pieces, each soon after the other, must still be cut off
+             "W 700 1500 q,h,e,c,d700,c,d700,c,d700,c,d700,c", "W 1000 2000 q,h,e,c,d900,c,d900,c,d900,c,d900,c",
+             "W 700 1500 d300,q,h,e,c,d600,c,d600,c,d600,c,d600,c", "W 700 1500 g,d100,q,h,e,c,d700,c,d700,c,d700,c,d700,c",
+             "W 700 2300 q,h,e,c,d400,c,d400,c,d400,c,d400,c",
+             # ... and so is the header time-out: a head arriving in pieces
+             "W 700 3000 p,d400,P,d400,h,d400,e,B", "W 1500 3000 p,d300,P,d300,h,d300,e,B"]
     stalls_at = ["", "p", "q", "q,h", "q,h,e", "q,h,e,b"]          # after connect, inside the request line, headers, body
     rest = {"": "q,h,e,B", "p": "P,h,e,B", "q": "h,e,B", "q,h": "e,B", "q,h,e": "B", "q,h,e,b": "b"}
     n = 10 if tier == "quick" else 120
